@@ -70,4 +70,44 @@ def nextAdvert (recent : Bool) (now untilDue : Nat) : Nat := if recent then now 
 def takeOver (I cur own : Nat) (subs : List Nat) : Nat :=
   subs.foldl (fun best t => if timeBetween I cur t < timeBetween I cur best then t else best) own
 
+/-! ### one kept key's timeline: when it was last advertised and when the region that covers it is next due -/
+
+structure TL where
+  now : Nat
+  /-- the key's last advertisement -/
+  last : Nat
+  /-- the instant at which the scheduled region that covers the key is next due -/
+  due : Nat
+  deriving Repr, DecidableEq
+
+/-- what can happen to the key's region, as the repaired code does it (workers keep up: a due or queued region is
+    reprovided at once) -/
+inductive TStep (I D : Nat) : TL → TL → Prop
+  /-- time passes, not beyond the region's slot -/
+  | wait (s : TL) (t : Nat) (h1 : s.now ≤ t) (h2 : t ≤ s.due) : TStep I D s { s with now := t }
+  /-- `handleReprovide` at the slot; `reschedulePrefix`: the next slot is `timeBetween` away (at most one interval), or
+      capped at interval + max delay when the region grew (`schedulePrefixNoLock`, justReprovided) -/
+  | fire (s : TL) (u : Nat) (h : s.now = s.due) (h1 : 1 ≤ u) (h2 : u ≤ I + D) :
+      TStep I D s { now := s.now, last := s.now, due := s.now + u }
+  /-- the key is advertised before its slot: a forced start, a merge found while a sibling region is reprovided
+      (`batchReprovide` reprovides every key under the covered prefix), the catch-up after an outage -/
+  | early (s : TL) (u : Nat) (h1 : 1 ≤ u) (h2 : u ≤ I + D) : TStep I D s { now := s.now, last := s.now, due := s.now + u }
+  /-- a new key's prefix subsumes the key's region (`schedulePrefixNoLock`, not justReprovided): the new prefix takes
+      over the earliest pending slot among its own and the subsumed ones -/
+  | subsume (s : TL) (cur own told : Nat) (subs : List Nat) (hm : told ∈ subs) (hd : s.due = s.now + timeBetween I cur told) :
+      TStep I D s { s with due := s.now + timeBetween I cur (takeOver I cur own subs) }
+  /-- restart: the schedule is rebuilt, the region that now covers the key is due in `u`; the history entry decides
+      whether the key waits for that slot or is caught up at once -/
+  | restart (s : TL) (u : Nat) (h1 : 1 ≤ u) (h2 : u ≤ I) :
+      TStep I D s (if recentRepaired I D s.now s.last u then { s with due := s.now + u }
+                   else { now := s.now, last := s.now, due := s.now + u })
+
+def TLInv (I D : Nat) (s : TL) : Prop := s.last ≤ s.now ∧ s.now ≤ s.due ∧ s.due ≤ s.last + I + D
+
+instance (I D : Nat) (s : TL) : Decidable (TLInv I D s) := by unfold TLInv; infer_instance
+
+inductive TReach (I D : Nat) (s0 : TL) : TL → Prop
+  | refl : TReach I D s0 s0
+  | step {s s' : TL} : TReach I D s0 s → TStep I D s s' → TReach I D s0 s'
+
 end KadDHT.Sched
